@@ -14,15 +14,18 @@ ASSUMPTIONS = ["a dangling view is only observable once the freed memory has bee
 T1 = b"t1"
 
 
-def make_case(rng, nested=False, consumer=False, midplain=False):
-    nparts = rng.randint(1, 4)
+def make_case(rng, nested=False, consumer=False, midplain=False, large=False):
+    # large: one broker leads 3..5 partitions with ~20..30 KiB each, so that the fetch reply exceeds 64 KiB (the client then reads it
+    # in several steps into a buffer that grows, and anything done to that buffer after parsing shows)
+    nparts = rng.randint(1, 4) if not large else rng.randint(3, 5)
     logs = {}
     for p in range(nparts):
         off = rng.randint(0, 3)
         kind = rng.choice(["plain", "gzip", "snappy"])
         msgs = []
-        for _ in range(rng.randint(1, 4)):
-            msgs.append(("plain", off, None if rng.random() < 0.3 else rand_bytes(rng, 0, 6), rand_bytes(rng, 0, 200)))
+        for _ in range(rng.randint(1, 4) if not large else rng.randint(3, 4)):
+            val = rand_bytes(rng, 0, 200) if not large else bytes(rng.getrandbits(8) for _ in range(rng.randint(5000, 7400)))
+            msgs.append(("plain", off, None if rng.random() < 0.3 else rand_bytes(rng, 0, 6), val))
             off += 1
         if nested and p == 0:
             if midplain and len(msgs) >= 2:
@@ -37,7 +40,7 @@ def make_case(rng, nested=False, consumer=False, midplain=False):
             logs[(T1, p)] = msgs
         else:
             logs[(T1, p)] = [("wrap", kind, msgs[-1][1], msgs)]
-    spec = {"brokers": brokers(2), "topics": {T1: [rng.randint(1, 2) for _ in range(nparts)], b"t2": [1]},
+    spec = {"brokers": brokers(2), "topics": {T1: [(rng.randint(1, 2) if not large else 1) for _ in range(nparts)], b"t2": [1]},
             "logs": logs, "order": rng.choice([None, "reversed"])}
     ops = boot_ops(spec)
     if consumer:
@@ -60,7 +63,7 @@ def make_case(rng, nested=False, consumer=False, midplain=False):
                                    T("produce_messages", [1, 1, 0, [pm(b"t2", 0, None, rand_bytes(rng, 1, 50))]])]))
         ops.append(reread)
     ops += [T("churn", [300]), reread, T("drop_results"), T("churn", [50])]
-    return {"cluster": spec, "ops": ops, "meta": {"first": first, "nested": nested, "consumer": consumer, "midplain": midplain}}
+    return {"cluster": spec, "ops": ops, "meta": {"first": first, "nested": nested, "consumer": consumer, "midplain": midplain, "large": large}}
 
 
 def gen(rng, tier):
@@ -68,6 +71,8 @@ def gen(rng, tier):
     cases = []
     for i in range(n):
         cases.append(make_case(rng, nested=(i % 4 == 0), consumer=(i % 3 == 0), midplain=(i % 8 == 0)))
+    for i in range(16 if tier == "quick" else 300):
+        cases.append(make_case(rng, nested=(i % 5 == 0), consumer=(i % 2 == 0), large=True))
     return cases
 
 
@@ -119,5 +124,5 @@ def nontrivial(case, recs):
 
 def stats(case, recs):
     m = case["meta"]
-    return {"nested:%s" % m["nested"]: 1, "via:%s" % ("poll" if m["consumer"] else "fetch_messages"): 1,
+    return {"nested:%s" % m["nested"]: 1, "reply_over_64KiB:%s" % bool(m.get("large")): 1, "via:%s" % ("poll" if m["consumer"] else "fetch_messages"): 1,
             "moves": sum(1 for o in case["ops"] if o.name == "move_results")}
